@@ -6,7 +6,8 @@
   statement about one decode of `encode m` for maps satisfying `RepMap`) and Props/C02Decoded.lean (record sections of
   every decoded map), and the map-level step "(a)": Props/C02FinalParts.lean (sort / breaks / velocity ingredients),
   Props/C02Final.lean (`Finalized`, `roundtrip_objects_rep_core`, `roundtrip_objects_rep_partial`), Props/C02FinalDecoded.lean
-  (`decoded_finalized`; Props/C02FinalUnordered.lean: its chronological hypothesis is needed), Props/C02FinalMania.lean (taiko / mania, all modes) and Props/C02FinalToy.lean (non-vacuity).
+  (`decoded_finalized`; Props/C02FinalUnordered.lean: its chronological hypothesis is needed), Props/C02FinalMania.lean (taiko / mania, all modes), Props/C02FinalToy.lean (non-vacuity),
+  Props/C02FinalCurves.lean (gap (e): the computed curves of re-decoded sliders, `roundtrip_curves_partial`).
   All in namespace `Rosu.C02`.
 -/
 import RosuModel.Props.C02Slider
@@ -23,3 +24,4 @@ import RosuModel.Props.C02FinalDecoded
 import RosuModel.Props.C02FinalMania
 import RosuModel.Props.C02FinalToy
 import RosuModel.Props.C02FinalUnordered
+import RosuModel.Props.C02FinalCurves
